@@ -48,7 +48,7 @@ Lemma align_buffer_end_top st align b_align al es st1 :
   st_ok st -> ma_ok st -> cache_ok st -> pow2 align -> balign_ok b_align -> balign_ok (block_align st) ->
   align_buffer_end st align b_align false = Some (al, es, st1) -> small st1 ->
   step st st1 /\ pow2 al /\ 4 <= al /\ align <= al /\ e_start st1 = e_start st /\ min_align st1 = min_align st /\
-  e_end st1 mod al = 0 /\ (b_align <> 0 -> b_align <= al).
+  e_end st <= e_end st1 < e_end st + al /\ (b_align <> 0 -> b_align <= al).
 Proof.
   intros Hok Hma Hc Hal Hb Hbs E Hsm. unfold align_buffer_end in E.
   set (ba := if b_align =? 0 then if block_align st =? 0 then 1 else block_align st else b_align) in E.
@@ -62,18 +62,18 @@ Proof.
   assert (Hge : 4 <= zmax (zmax align 4) ba /\ align <= zmax (zmax align 4) ba /\ ba <= zmax (zmax align 4) ba).
   { unfold zmax. destruct (align <? 4) eqn:X; destruct (_ <? ba) eqn:Y; lia. }
   remember (zmax (zmax align 4) ba) as AL eqn:HAL. clear HAL.
-  destruct (back_pad_aligned st AL Hpal) as [Hbr Hbm].
+  pose proof (back_pad_range st AL Hpal) as Hbr. pose proof (pow2_pos _ Hpal) as Hpp.
   destruct (back_pad st AL =? 0) eqn:Ep.
   - injection E as <- <- <-.
     split; [apply step_refl; assumption|].
     split; [exact Hpal|]. split; [lia|]. split; [lia|]. split; [reflexivity|]. split; [reflexivity|].
-    split; [|lia]. replace (back_pad st AL) with 0 in Hbm by lia. rewrite Z.add_0_r in Hbm. exact Hbm.
+    split; lia.
   - destruct (emit_back st (zeros (back_pad st AL))) as [[[r e] st0]|] eqn:Eb; [|discriminate].
     injection E as <- <- <-.
     destruct (step_emit_back _ _ _ _ _ Hok Hma Eb Hsm) as (Hst & _ & Hs & He & Hm & Hcc & _ & _).
     rewrite lenZ_zeros in He by lia.
     split; [exact Hst|]. split; [exact Hpal|]. split; [lia|]. split; [lia|]. split; [exact Hs|]. split; [exact Hm|].
-    split; [rewrite He; exact Hbm | lia].
+    split; lia.
 Qed.
 
 Lemma mle_restrict_sub m lo hi o : mle (restrict m lo hi) o m o.
@@ -91,8 +91,9 @@ Lemma create_buffer_top n Sc st id b_align root align flags R v ref es st' :
   create_buffer st id b_align root align flags = Some (ref, es, st') -> small st' ->
   st_ok st' /\ e_start st' = ref /\ pow2 (min_align st') /\ 4 <= min_align st' /\ align <= min_align st' /\
   ref mod min_align st' = 0 /\
-  decode_mem n Sc R (negb (Z.land flags 2 =? 0)) [min_align st'] (mem_of_list (buffer_bytes st')) (lenZ (buffer_bytes st')) = Some v /\
-  lenZ (buffer_bytes st') mod min_align st' = 0 /\ (b_align <> 0 -> b_align <= min_align st').
+  (forall ds0, Forall (fun d => d mod min_align st' = 0) ds0 ->
+     decode_mem n Sc R (negb (Z.land flags 2 =? 0)) ds0 (mem_of_list (buffer_bytes st')) (lenZ (buffer_bytes st')) = Some v) /\
+  (b_align <> 0 -> b_align <= min_align st').
 Proof.
   intros Hok Hma Hc Hal Hmin Hb Hbs Hid Hfl Hroot Hv E Hsm. unfold create_buffer in E.
   rewrite Hfl in E. cbn [Z.eqb negb orb] in E.
@@ -109,7 +110,7 @@ Proof.
   assert (Hsm2 : small st2) by (eapply emit_front_small; eauto).
   assert (Hsm1 : small st1) by (apply (small_set_min_align st1 al); exact Hsm2).
   destruct (align_buffer_end_top st align b_align al es0 st1 Hok Hma Hc Hal Hb Hbs Ea Hsm1)
-    as (Hst1 & Hpal & Hal4 & Hala & Hs1 & Hm1 & He1m & Hbal).
+    as (Hst1 & Hpal & Hal4 & Hala & Hs1 & Hm1 & _ & Hbal).
   pose proof (step_set_min_align st1 al (s_ok _ _ Hst1) (s_ma _ _ Hst1) Hpal) as Hst2. fold st2 in Hst2.
   destruct (set_min_align_fields st1 al) as (Hs2 & He2 & _ & _ & _ & _ & Hm2). fold st2 in Hs2, He2, Hm2.
   assert (Hm2' : min_align st2 = al) by (rewrite Hm2; unfold zmax; destruct (min_align st1 <? al) eqn:X; lia).
@@ -131,7 +132,7 @@ Proof.
   assert (Hrm : r mod al = 0).
   { rewrite Hr. replace (e_start st2 - iov_len) with (e_start st2 - (4 + id_size + ws4) - pad) by (subst iov_len; ring). exact Hpa. }
   assert (Hbb : bbase = u32 (r + ws4)).
-  { subst bbase. rewrite Hr. unfold u32. clear Hpa Hrm He1m. lia. }
+  { subst bbase. rewrite Hr. unfold u32. clear Hpa Hrm. lia. }
   assert (Hm3' : min_align st3 = al) by congruence.
   assert (Hlvl : lvl_align st3 = al) by (unfold lvl_align; rewrite Hm3'; unfold zmax; destruct (al <? 4) eqn:X; lia).
   assert (Hblen : lenZ (buffer_bytes st3) = e_end st3 - r) by (unfold buffer_bytes; rewrite lenZ_app; lia).
@@ -139,29 +140,32 @@ Proof.
   { eapply mod_divide_trans; [lia | apply (pow2_le_divide 4 al pow2_4 Hpal Hal4) | apply pow2_pos, Hpal | apply Z.mod_same; pose proof (pow2_pos _ Hpal); lia]. }
   split; [exact (s_ok _ _ Hst3)|]. split; [exact Hs3|]. rewrite Hm3'.
   split; [exact Hpal|]. split; [exact Hal4|]. split; [exact Hala|]. split; [exact Hrm|].
-  split.
-  2:{ split; [|exact Hbal]. rewrite Hblen, He3, He2.
-      pose proof (pow2_pos _ Hpal). rewrite Zminus_mod, He1m, Hrm. reflexivity. }
+  split; [|exact Hbal].
   (* decoding *)
+  intros ds0 Hds0.
   pose proof (vmem_bytes st3 (s_ok _ _ Hst3)) as Hmle. rewrite Hs3 in Hmle.
-  assert (Hord : org_ok st3 (lvl_align st3) r [0; al]).
-  { split; [lia|]. rewrite Hlvl. pose proof (pow2_pos _ Hpal).
-    constructor; [|constructor; [|constructor]].
+  pose proof (pow2_pos _ Hpal) as Hpp.
+  assert (Hord : org_ok st3 (lvl_align st3) r (0 :: ds0)).
+  { split; [lia|]. rewrite Hlvl.
+    constructor.
     - replace (0 - r) with ((-1) * r) by ring. rewrite Z.mul_mod, Hrm by lia. rewrite Z.mul_0_r. reflexivity.
-    - rewrite Zminus_mod, Hrm, Z.mod_same by lia. reflexivity. }
-  pose proof (step_valid n Sc st st3 _ _ _ Hma Hstep Hv r [0; al] Hord) as Hroot'.
-  assert (Hal_lst : forall hp, hp mod 4 = 0 -> aligned [0; al] hp 4 = true).
-  { intros hp Hhp. unfold aligned. cbn [forallb]. rewrite Z.add_0_l. rewrite Hhp.
-    rewrite Z.add_mod, Hal4d, Hhp by lia. reflexivity. }
+    - eapply Forall_impl; [|exact Hds0]. cbn. intros d Hd. rewrite Zminus_mod, Hrm, Hd by lia. reflexivity. }
+  pose proof (step_valid n Sc st st3 _ _ _ Hma Hstep Hv r (0 :: ds0) Hord) as Hroot'.
+  assert (Hal_lst : forall hp, hp mod 4 = 0 -> aligned (0 :: ds0) hp 4 = true).
+  { intros hp Hhp. unfold aligned. apply forallb_forall. intros d Hin. apply Z.eqb_eq.
+    assert (Hd4 : d mod 4 = 0).
+    { destruct Hin as [<-|Hin]; [reflexivity|]. rewrite Forall_forall in Hds0. specialize (Hds0 d Hin).
+      eapply mod_divide_trans; [lia | apply (pow2_le_divide 4 al pow2_4 Hpal Hal4) | exact Hpp | exact Hds0]. }
+    rewrite Z.add_mod, Hd4, Hhp by lia. reflexivity. }
   assert (Hoo : u32 (u32 root - bbase) = root - r - ws4).
-  { rewrite Hbb. unfold u32. clear Hpa Hrm He1m Hal4d. lia. }
+  { rewrite Hbb. unfold u32. clear Hpa Hrm Hal4d. lia. }
   unfold decode_mem. destruct ws eqn:Ews.
   - (* size prefixed *)
     assert (Hws44 : ws4 = 4) by (subst ws4; reflexivity).
     cbn [app] in Hmem. apply mem_has_app in Hmem. destruct Hmem as [Hmsz Hmem]. apply mem_has_app in Hmem. destruct Hmem as [Hmoff _].
     rewrite lenZ_le32 in Hmoff.
     assert (Hsz : u32 (u32 (e_end st2) - bbase) = e_end st3 - r - 4).
-    { rewrite Hbb, Hws44, He3. unfold u32. unfold small in Hsm. clear Hpa Hrm He1m Hal4d. lia. }
+    { rewrite Hbb, Hws44, He3. unfold u32. unfold small in Hsm. clear Hpa Hrm Hal4d. lia. }
     assert (Hrd0 : mrd32 (mem_of_list (buffer_bytes st3)) 0 = Some (e_end st3 - r - 4)).
     { eapply (mrd32_at (vmem st3) r); [eapply mle_trans; [exact Hmle | apply mle_restrict_sub] | | ].
       2:{ rewrite <- Hsz. apply mem_has_le32; [apply u32_range | exact Hmsz]. }
@@ -179,4 +183,169 @@ Proof.
     eapply dec_buffer_root; [apply Hal_lst; reflexivity | | exact Hroot'].
     unfold follow. rewrite Z.add_0_r. rewrite (mem_has_le32 _ _ _ (u32_range _) Hmoff). cbn [bind].
     rewrite Hoo, Hws40. replace (root - r - 0 =? 0) with false by lia. f_equal. ring.
+Qed.
+
+(* ------------------------------------------------------------------ C15: create_buffer with is_nested *)
+(* flatcc_builder_create_buffer with is_nested (the call end_buffer makes for a nested buffer): the ubyte vector
+   header, its length taken from buffer_mark, the alignment of the vector data.  Given a root object that is valid
+   within the window [emit_start, buffer_mark) of the nested buffer, the emitted vector
+   - decodes as a nested buffer of the parent (in the memory restricted to the vector: self contained),
+   - copied out, decodes on its own as a buffer of the nested root type,
+   - has its data start at a virtual address that is a multiple of the nested buffer's alignment. *)
+(* every address of the emitted range holds a byte *)
+Lemma vmem_defined st a : st_ok st -> e_start st <= a < e_end st -> exists b, vmem st a = Some b.
+Proof.
+  intros (Hs & He & _) Ha. unfold vmem. pose proof (lenZ_nonneg (front st)). pose proof (lenZ_nonneg (back st)). unfold lenZ in *.
+  destruct (a <? 0) eqn:E.
+  - replace (e_start st <=? a) with true by lia.
+    destruct (nth_error (front st) (Z.to_nat (a - e_start st))) eqn:N; [eauto|]. apply nth_error_None in N. lia.
+  - destruct (nth_error (back st) (Z.to_nat a)) eqn:N; [eauto|]. apply nth_error_None in N. lia.
+Qed.
+
+Lemma mrdbytes_defined m : forall n a, (forall i, 0 <= i < Z.of_nat n -> exists b, m (a + i) = Some b) -> exists l, mrdbytes m a n = Some l.
+Proof.
+  induction n; intros a H; cbn [mrdbytes]; [eauto|].
+  destruct (H 0 ltac:(lia)) as [b Hb]. rewrite Z.add_0_r in Hb. rewrite Hb. cbn [bind].
+  destruct (IHn (a + 1)) as [l Hl].
+  { intros i Hi. destruct (H (i + 1) ltac:(lia)) as [b' Hb']. exists b'. rewrite <- Hb'. f_equal. lia. }
+  rewrite Hl. cbn [bind]. eauto.
+Qed.
+
+Lemma mrd32_restrict m lo hi a : lo <= a -> a + 4 <= hi -> mrd32 (restrict m lo hi) a = mrd32 m a.
+Proof.
+  intros H1 H2. unfold mrd32, restrict.
+  replace ((lo <=? a) && (a <? hi)) with true by lia.
+  replace ((lo <=? a + 1) && (a + 1 <? hi)) with true by lia.
+  replace ((lo <=? a + 2) && (a + 2 <? hi)) with true by lia.
+  replace ((lo <=? a + 3) && (a + 3 <? hi)) with true by lia. reflexivity.
+Qed.
+
+Lemma create_buffer_nested n Sc st id b_align root align flags R v ref es st' :
+  st_ok st -> ma_ok st -> pow2 align -> min_align st <= align ->
+  balign_ok b_align -> balign_ok (block_align st) -> in_u32 id ->
+  Z.land flags 1 <> 0 -> Z.land flags 2 = 0 ->
+  e_start st <= root < 0 -> e_start st <= buffer_mark st <= 0 ->
+  (* the root is valid within the nested buffer's own window *)
+  (forall o ds, org_ok st (lvl_align st) o ds ->
+     obj_holds n Sc (root_oty R) v (restrict (vmem st) (e_start st) (buffer_mark st)) o ds (root - o)) ->
+  create_buffer st id b_align root align flags = Some (ref, es, st') -> small st' ->
+  let al := min_align st' in
+  let nb := ref + 4 in
+  st_ok st' /\ e_start st' = ref /\ e_end st' = e_end st /\ pow2 al /\ 4 <= al /\ align <= al /\
+  nb mod al = 0 /\ ref mod 4 = 0 /\
+  (* in the parent: a nested buffer, decoded in the memory restricted to the vector *)
+  (forall o ds al', org_ok st' al o ds ->
+     dec_nested (dec_table n Sc) (vmem st') o ds R al' (ref - o) = Some (VNested v)) /\
+  (* copied out: a buffer of its own *)
+  (forall ext, mem_has (vmem st') nb ext -> lenZ ext = buffer_mark st - nb ->
+     decode_root n Sc R false ext = Some v).
+Proof.
+  intros Hok Hma Hal Hmin Hb Hbs Hid Hf1 Hf2 Hroot Hmark Hv E Hsm. unfold create_buffer in E.
+  replace (Z.land flags 1 =? 0) with false in E by lia. rewrite Hf2 in E. cbn [negb Z.eqb orb] in E.
+  unfold align_buffer_end in E.
+  set (ba := if b_align =? 0 then if block_align st =? 0 then 1 else block_align st else b_align) in E.
+  assert (Hba : pow2 ba).
+  { subst ba. destruct Hb as [->|Hb]; cbn.
+    - destruct Hbs as [->|Hbs]; cbn; [apply pow2_1|]. pose proof (pow2_pos _ Hbs). replace (block_align st =? 0) with false by lia. exact Hbs.
+    - pose proof (pow2_pos _ Hb). replace (b_align =? 0) with false by lia. exact Hb. }
+  clearbody ba.
+  assert (Hpal : pow2 (zmax (zmax align 4) ba)) by (apply pow2_max; [apply pow2_max; [exact Hal | apply pow2_4] | exact Hba]).
+  assert (Hge : 4 <= zmax (zmax align 4) ba /\ align <= zmax (zmax align 4) ba).
+  { unfold zmax. destruct (align <? 4) eqn:X; destruct (_ <? ba) eqn:Y; lia. }
+  remember (zmax (zmax align 4) ba) as AL eqn:HAL. clear HAL. destruct Hge as [HAL4 HALa].
+  set (st2 := set_min_align st AL) in E.
+  set (id_size := if id =? 0 then 0 else 4) in E.
+  set (pad := front_pad st2 (4 + id_size + 0) AL) in E.
+  set (iov_len := 4 + 4 + id_size + pad) in E.
+  set (bbase := u32 (u32 (e_start st2) - u32 iov_len + 4)) in E.
+  destruct (emit_front st2 _) as [[[r e] st3]|] eqn:Ef; [|discriminate].
+  injection E as <- <- <-.
+  pose proof (step_set_min_align st AL Hok Hma Hpal) as Hst2. fold st2 in Hst2.
+  destruct (set_min_align_fields st AL) as (Hs2 & He2 & _ & _ & _ & Hctl2 & Hm2). fold st2 in Hs2, He2, Hm2, Hctl2.
+  assert (Hm2' : min_align st2 = AL) by (rewrite Hm2; unfold zmax; destruct (min_align st <? AL) eqn:X; lia).
+  destruct (step_emit_front _ _ _ _ _ (s_ok _ _ Hst2) (s_ma _ _ Hst2) Ef Hsm) as (Hst3 & Hr & Hs3 & He3 & Hm3 & _ & Hmem & Hlt).
+  assert (Hids : id_size = 0 \/ id_size = 4) by (subst id_size; destruct (id =? 0); lia).
+  pose proof (front_pad_range st2 (4 + id_size + 0) AL Hpal) as Hpr. fold pad in Hpr.
+  pose proof (front_pad_aligned st2 (4 + id_size + 0) AL Hpal) as Hpa. fold pad in Hpa.
+  assert (Hlen : lenZ (le32 (u32 (u32 (buffer_mark st2) - bbase)) ++ le32 (u32 (u32 root - bbase)) ++
+                        (if id =? 0 then [] else le32 id) ++ zeros pad) = iov_len).
+  { subst iov_len id_size. destruct (id =? 0); rewrite ?lenZ_app, ?lenZ_le32, ?lenZ_zeros by lia; change (lenZ []) with 0; clear Hpa; lia. }
+  rewrite Hlen in Hr.
+  destruct (s_ok _ _ Hst3) as (Hs3' & He3' & Hlo3 & Hhi3).
+  destruct (s_ok _ _ Hst2) as (Hs2' & He2' & Hlo2 & Hhi2).
+  pose proof (lenZ_nonneg (front st2)) as Hf2'. pose proof (lenZ_nonneg (back st2)) as Hb2'.
+  pose proof (lenZ_nonneg (front st3)) as Hf3. pose proof (lenZ_nonneg (back st3)) as Hb3.
+  assert (Hmk2 : buffer_mark st2 = buffer_mark st) by (destruct Hctl2 as (_ & _ & -> & _); reflexivity).
+  assert (Hnbm : (r + 4) mod AL = 0).
+  { rewrite Hr. replace (e_start st2 - iov_len + 4) with (e_start st2 - (4 + id_size + 0) - pad) by (subst iov_len; ring). exact Hpa. }
+  pose proof (pow2_pos _ Hpal) as Hpp.
+  assert (HAL4d : AL mod 4 = 0).
+  { eapply mod_divide_trans; [lia | apply (pow2_le_divide 4 AL pow2_4 Hpal HAL4) | exact Hpp | apply Z.mod_same; lia]. }
+  assert (Hr4 : r mod 4 = 0).
+  { assert (X : (r + 4) mod 4 = 0).
+    { eapply mod_divide_trans; [lia | apply (pow2_le_divide 4 AL pow2_4 Hpal HAL4) | exact Hpp | exact Hnbm]. }
+    lia. }
+  assert (Hbb : bbase = u32 (r + 4)).
+  { subst bbase. rewrite Hr. unfold u32. clear Hpa Hnbm HAL4d Hr4. lia. }
+  assert (Hm3' : min_align st3 = AL) by congruence.
+  cbn zeta. rewrite Hm3'.
+  split; [exact (s_ok _ _ Hst3)|]. split; [exact Hs3|]. split; [lia|]. split; [exact Hpal|]. split; [exact HAL4|].
+  split; [exact HALa|]. split; [exact Hnbm|]. split; [exact Hr4|].
+  apply mem_has_app in Hmem. destruct Hmem as [Hmsz Hmem]. apply mem_has_app in Hmem. destruct Hmem as [Hmoff _].
+  rewrite lenZ_le32 in Hmoff.
+  assert (Hszv : u32 (u32 (buffer_mark st2) - bbase) = buffer_mark st - (r + 4)).
+  { rewrite Hbb, Hmk2. unfold u32. clear Hpa Hnbm HAL4d Hr4. lia. }
+  assert (Hoo : u32 (u32 root - bbase) = root - (r + 4)).
+  { rewrite Hbb. unfold u32. clear Hpa Hnbm HAL4d Hr4. lia. }
+  assert (Hstep : step st st3) by exact (step_trans _ _ _ Hst2 Hst3).
+  (* the child's level alignment divides AL *)
+  assert (HMdiv : (lvl_align st | AL)).
+  { apply pow2_le_divide; [apply lvl_align_pow2, Hma | exact Hpal |]. unfold lvl_align, zmax. destruct (min_align st <? 4); lia. }
+  (* the root inside the window [r + 4, mark), origin r + 4, any admissible references *)
+  assert (Hin : forall ds', Forall (fun d => (d - (r + 4)) mod lvl_align st = 0) ds' ->
+            dec_buffer (dec_table n Sc) (restrict (vmem st3) (r + 4) (buffer_mark st)) (r + 4) ds' R 0 = Some v).
+  { intros ds' Hds'.
+    assert (Ho : org_ok st (lvl_align st) (r + 4) ds') by (split; [lia | exact Hds']).
+    pose proof (Hv _ _ Ho) as Hrv.
+    assert (Hm' : mle (restrict (vmem st) (e_start st) (buffer_mark st)) (r + 4) (restrict (vmem st3) (r + 4) (buffer_mark st)) (r + 4)).
+    { intros i b. unfold restrict. destruct ((e_start st <=? r + 4 + i) && (r + 4 + i <? buffer_mark st)) eqn:X; [|discriminate].
+      replace ((r + 4 <=? r + 4 + i) && (r + 4 + i <? buffer_mark st)) with true by lia. apply (s_ext _ _ Hstep). }
+    pose proof (obj_holds_mono n n Sc _ _ _ _ _ _ ds' _ (le_n n) Hm' Hrv) as Hrv'.
+    eapply dec_buffer_root; [| | exact Hrv'].
+    - unfold aligned. apply forallb_forall. intros d Hd. apply Z.eqb_eq. rewrite Forall_forall in Hds'. specialize (Hds' d Hd).
+      assert (X : (d - (r + 4)) mod 4 = 0).
+      { eapply mod_divide_trans; [lia | apply div4_lvl, Hma | apply lvl_pos | exact Hds']. }
+      clear Hpa Hnbm. lia.
+    - unfold follow. rewrite Z.add_0_r. rewrite mrd32_restrict by lia.
+      rewrite (mem_has_le32 _ _ _ (u32_range _) Hmoff). cbn [bind].
+      rewrite Hoo. replace (root - (r + 4) =? 0) with false by lia. rewrite Z.add_0_l. reflexivity. }
+  split.
+  - (* nested in the parent *)
+    intros o ds al' [Holo Hods]. unfold dec_nested.
+    assert (Ha4 : aligned ds (r - o) 4 = true).
+    { unfold aligned. apply forallb_forall. intros d Hd. apply Z.eqb_eq. rewrite Forall_forall in Hods. specialize (Hods d Hd).
+      assert (X : (d - o) mod 4 = 0) by (eapply mod_divide_trans; [lia | apply (pow2_le_divide 4 AL pow2_4 Hpal HAL4) | exact Hpp | exact Hods]).
+      clear Hpa Hnbm. lia. }
+    rewrite Ha4. replace (o + (r - o)) with r by ring.
+    rewrite (mem_has_le32 _ _ _ (u32_range _) Hmsz). cbn [bind]. rewrite Hszv.
+    replace (o + (r - o + 4)) with (r + 4) by ring.
+    destruct (mrdbytes_defined (vmem st3) (Z.to_nat (buffer_mark st - (r + 4))) (r + 4)) as [l Hl].
+    { intros i Hi. apply vmem_defined; [exact (s_ok _ _ Hst3)|]. lia. }
+    rewrite Hl. cbn [bind].
+    replace (r + 4 + (buffer_mark st - (r + 4))) with (buffer_mark st) by ring.
+    rewrite (Hin (map (Z.add (r - o + 4)) ds)); [reflexivity|].
+    rewrite Forall_map. eapply Forall_impl; [|exact Hods]. cbn. intros d Hd.
+    replace (r - o + 4 + d - (r + 4)) with (d - o) by ring.
+    eapply mod_divide_trans; [apply lvl_pos | exact HMdiv | exact Hpp | exact Hd].
+  - (* copied out *)
+    intros ext Hext Hlenx. unfold decode_root, decode_mem. fold (lenZ ext).
+    eapply dec_buffer_mono; [apply rle_refl | | apply (Hin [0])].
+    + intros i b. unfold restrict, mem_of_list. destruct ((r + 4 <=? r + 4 + i) && (r + 4 + i <? buffer_mark st)) eqn:X; [|discriminate].
+      intros Hb'. replace ((0 <=? 0 + i) && (0 + i <? lenZ ext)) with true by lia. replace (0 + i <? 0) with false by lia.
+      assert (Hi : (Z.to_nat i < length ext)%nat) by (unfold lenZ in Hlenx; lia).
+      pose proof (Hext (Z.to_nat i) Hi) as Hx. replace (Z.of_nat (Z.to_nat i)) with i in Hx by lia.
+      rewrite Z.add_0_l. rewrite <- Hx. exact Hb'.
+    + constructor; [|constructor]. replace (0 - (r + 4)) with ((-1) * (r + 4)) by ring.
+      assert (X : (r + 4) mod lvl_align st = 0) by (eapply mod_divide_trans; [apply lvl_pos | exact HMdiv | exact Hpp | exact Hnbm]).
+      pose proof (lvl_pos st). rewrite Z.mul_mod, X by lia. rewrite Z.mul_0_r. reflexivity.
 Qed.
